@@ -19,7 +19,7 @@ def run(res, tier, replay):
     if sw.ok:
         n = robust.crash_oracle(res, sw, include_faults=True)
         # directed (own generator state): two parts of one set found by ONE search() in one file are joined with each other, a member is
-        # extracted, the list is closed through its head - the recorded finding asan:heap-use-after-free:cabd_close (known_findings.json)
+        # extracted, the list is closed through its head (repaired defect asan:heap-use-after-free:cabd_close, known_findings.json: reported again if it returns)
         from vlib import cabfmt, scenario
         r2 = random.Random(202)
         fo = cabfmt.Folder(("none",), [cabfmt.Member(b"e%d.bin" % j, data=bytes(r2.randrange(256) for _ in range(ln))) for j, ln in enumerate([3000, 40000])])
